@@ -224,6 +224,9 @@ class CompoundQuery(qcore.Query):
 
         if len(subs) == 1:
             m = subs[0].matcher(searcher, context)
+            if self.boost != 1.0:
+                # The compound's own boost still applies to its only clause
+                m = matching.WrappingMatcher(m, self.boost)
         else:
             m = self._matcher(subs, searcher, context)
         return m
